@@ -241,6 +241,63 @@ def h_store(key: bytes, value: bytes, prefix: bytes, noreply: bool, flags: int, 
     return ok("sent")
 
 
+def h_store_str(value: str, noreply: bool, verb: int, other: int) -> int:
+    """
+    str values (no serde): the data block is the value encoded with the client's encoding, the announced length is the
+    length of that block in bytes; a value the encoding cannot express is rejected before anything is written.
+    pre: len(value) <= VL
+    pre: 0 <= verb <= 5
+    pre: 0 <= other <= 1
+    post: _ != 0
+    """
+    cps = []
+    for ch in value:
+        cp = ord(ch)
+        if 0xD800 <= cp and cp <= 0xDFFF:
+            return skip("surrogate")
+        cps.append(cp)
+    limit = {"ascii": 128, "latin-1": 256}.get(ENC)
+    if limit is None:
+        enc = utf8_of(cps)
+    else:
+        enc = list(cps)
+        for cp in cps:
+            if cp >= limit:
+                enc = None
+    net = RecNet()
+    c = _client(net, b"")
+    name = VERBS[concretize(verb, 0, 5)]
+    cas = b"77" if name == b"cas" else None
+    pairs = [(b"k", value)] + [(b"z", b"tail")][:concretize(other, 0, 1)]
+    try:
+        c._store_cmd(name, Items(pairs), 0, noreply, flags=0, cas=cas)
+    except MemcacheIllegalInputError:
+        if net.events:
+            return viol(name, "raised MemcacheIllegalInputError after", net.events)
+        if enc is not None:
+            return viol(name, "rejected a value that", ENC, "can express")
+        return ok("rejected")
+    except Stop:
+        pass
+    except Exception as e:
+        return viol(name, "raised", type(e).__name__)
+    if enc is None:
+        return viol(name, "sent a value that", ENC, "cannot express")
+    if len(net.sent) != 1:
+        return viol(name, "sendall calls:", len(net.sent))
+    tail = (b" " + cas if cas is not None else b"") + (b" noreply" if noreply else b"") + b"\r\n"
+    head = name + b" k 0 0 " + (b"%d" % len(enc)) + tail           # len(enc) is concrete on every path
+    rest = b"\r\n"
+    if len(pairs) == 2:
+        rest = rest + name + b" z 0 0 4" + tail + b"tail\r\n"
+    wire = net.sent[0]
+    if len(wire) != len(head) + len(enc) + len(rest) or wire[:len(head)] != head or wire[len(head) + len(enc):] != rest \
+            or not same_bytes(wire[len(head):len(head) + len(enc)], enc):
+        return viol(name, ENC, "value of", len(cps), "code points /", len(enc), "bytes: header or data block differ from",
+                    head, "+ encoded value +", rest)
+    return ok("sent")
+
+
 # ---------------------------------------------------------------------------------------------- layer B
 
 def _mk_stack(net, prefix):
@@ -496,6 +553,8 @@ def shards(tier):
         S.append(dict(fn="h_store", timeout=T, shard=dict(kl=1, vl=1, pl=0, n_other=2, pos=pos)))
         if thorough:
             S.append(dict(fn="h_store", timeout=T, shard=dict(kl=2, vl=2, pl=1, n_other=2, pos=pos)))
+    for enc in ("utf8", "latin-1", "ascii"):
+        S.append(dict(fn="h_store_str", timeout=T, shard=dict(vl=3 if thorough else 2, encoding=enc)))
     for st in ("client", "pooled", "hash"):
         for op in HOPS:
             if st == "hash" and op == "delete_many_big":
@@ -519,7 +578,8 @@ def shards(tier):
 BOUNDS = {
     "quick": "layer A: key <= 2 symbolic bytes x prefix <= 1 symbolic byte (all 256 values each), symbolic noreply and small "
              "ints, for delete/incr/decr/touch, delete_many (symbolic key at each of 3 positions) and _store_cmd for the six "
-             "verbs (value <= 3 symbolic bytes, 1 or 3 items); layer B: 13 dict-building operations on Client (5 on "
+             "verbs (value <= 3 symbolic bytes, 1 or 3 items), str values of <= 2 symbolic code points under utf8 / latin-1 / "
+             "ascii (announced length == encoded length, unencodable rejected before any byte is written); layer B: 13 dict-building operations on Client (5 on "
              "PooledClient/HashClient), keys of length 0..2 over a 12-class byte alphabet as bytes and str, prefix 0..1 byte, "
              "symbolic position in a 3-key call, strict-parser oracle; layer C: 8 integer arguments over 0..99 (symbolic), 12 "
              "protocol-range boundaries, 6 non-integer values; long keys 249..251 with 2 symbolic bytes",
